@@ -165,11 +165,56 @@ def acc_streams(ctx):
     return trace_stage(ctx, "acc-streams", cmds, "Trace_Acc", nontrivial=lambda e: e.get("op") == "feed", require=req)
 
 
+def link_mc(ctx, n, target, msgs, faults, emit, maxchunk=3, fbytes="{0,1,3}", props=""):
+    cfg = tmpl("MC_Link", N=n, Target=target, Msgs=msgs, MaxChunk=maxchunk, MaxFaults=faults, FaultBytes=fbytes,
+               Emit="TRUE" if emit else "FALSE", Props=props)
+    if not props:
+        cfg = "\n".join(l for l in cfg.splitlines() if not l.startswith("PROPERTIES")) + "\n"
+    return tlc_mc(ctx, f"link-N{n}-{msgs}-f{faults}-c{maxchunk}{'-vec' if emit else ''}{'-live' if props else ''}", "MC_Link", cfg,
+                  want_prefix='<<"LINK"' if emit else None, workers=8)
+
+
+def acc_link(ctx):
+    """the link as one system (spec/Link.tla): sender, damaging channel, documented receive loop. Exhaustive model checking of the
+    end-to-end obligations, then every enumerated behaviour (chunks + untouched messages owed) replayed on the real accumulator."""
+    cargo_build(ctx, "h_core")
+    # exhaustive, no history: three frames / one fault, two frames / two faults (thorough), capacity exact and generous
+    link_mc(ctx, 4, "pair", "PairMsgs", 1, False)
+    link_mc(ctx, 5, "bytes", "BytesMsgs", 1, False)
+    link_mc(ctx, 4, "pair", "PairMsgs2", 1, False, props="Delivers")          # liveness: everything sent is eventually through the loop
+    if ctx.tier == "thorough":
+        link_mc(ctx, 4, "pair", "PairMsgs2", 2, False, maxchunk=4)
+        link_mc(ctx, 6, "pair", "PairMsgs", 1, False, maxchunk=5, fbytes="{0,1,2,3,255}")
+    # behaviours as vectors (history of chunks carried in the state)
+    lines = set()
+    for (n, t, m, f, c) in ctx.pick([(4, "pair", "PairMsgs2", 1, 3), (5, "bytes", "BytesMsgs2", 1, 2)],
+                                    [(4, "pair", "PairMsgs2", 1, 4), (5, "bytes", "BytesMsgs2", 1, 3), (4, "pair", "PairMsgs", 0, 3), (6, "pair", "PairMsgs2", 1, 3)]):
+        r = link_mc(ctx, n, t, m, f, True, maxchunk=c)
+        lines.update(r.pop("lines"))
+        r["lines"] = []
+    lines = sorted(core.unescape_tla(l[len('<<"LINK", "'):-3]) for l in lines)
+    d = os.path.join(WORK, "vec")
+    os.makedirs(d, exist_ok=True)
+    per = (len(lines) + NSH - 1) // NSH
+    cmds = []
+    for i in range(NSH):
+        chunk = lines[i * per:(i + 1) * per]
+        if not chunk:
+            continue
+        p = os.path.join(d, f"acclink-{ctx.tier}-{i}.json")
+        open(p, "w").write("\n".join(chunk) + "\n")
+        cmds.append(([hbin("h_core"), "acc-link", "--in", p], f"acclink-{i}.ndjson"))
+    r = trace_stage(ctx, "acc-link", cmds, "Trace_Acc", nontrivial=lambda e: e.get("op") in ("feed", "link_done"), require=["link_done"])
+    r["distinct_behaviours"] = len(lines)
+    return r
+
+
 def run_acc(ctx):
     # unbounded capacity / chunk length: index bound, slice indices in range and loop progress as an inductive invariant (Apalache)
     core.apalache_inductive(ctx, "acc-abs", os.path.join(SPEC, "apalache", "AccAbs.tla"))
     acc_edges(ctx)
     acc_streams(ctx)
+    acc_link(ctx)
 
 
 def _env(mm):
@@ -180,7 +225,7 @@ def _env(mm):
 def sel_c08(mm):
     # C08 quantifies over streams whose segments fit the capacity
     t = set(mm.get("tags", []))
-    return _env(mm) == "fit" and bool(t & {"feed", "edge", "conserve", "leaves", "idx", "panic"})
+    return _env(mm) == "fit" and bool(t & {"feed", "edge", "conserve", "leaves", "idx", "panic", "link"})
 
 
 def sel_c09(mm):
